@@ -24,6 +24,14 @@ pub fn run(case: &Value) -> Value {
             Err(libcnb::layer::DeleteLayerError::IoError(e)) => json!({"ok": false, "err": errno_name(&e)}),
         },
         "rdr" => io_res(verif_hooks::remove_dir_recursively(&layers.join(name.as_str()))),
+        // the public struct API: an uncached layer request deletes the existing layer and creates it afresh
+        "recreate" => {
+            let ctx = crate::c01::context(&layers);
+            match ctx.uncached_layer(&name, libcnb::layer::UncachedLayerDefinition { build: true, launch: false }) {
+                Ok(_) => json!({"ok": true}),
+                Err(e) => json!({"ok": false, "err": "other", "text": format!("{e:?}").chars().take(160).collect::<String>()}),
+            }
+        }
         o => panic!("op {o}"),
     };
     let post = snapshot(&root);
